@@ -72,10 +72,16 @@ if mode == 'faults':
     _, n = make_score()
     priors = {'absent': None, 'empty': b'', 'short': b'old', 'long': b'<old>' + b'x' * 5000 + b'</old>\n', 'same': None}
     d = tempfile.mkdtemp(prefix='c17_')
-    for b in [None] + list(range(n)):
+    for b in [None] + list(range(n)) + [('unchecked-root', x) for x in [None] + list(range(1, n))]:
         for pname, prior in priors.items():
-            s, _ = make_score(break_at=b)
-            path = os.path.join(d, 'f_%s_%s.xml' % (b, pname))
+            # second family: the ROOT is switched to xsd_check=False (to_string then checks nothing at the root) while the broken node below keeps checking
+            unchecked_root = isinstance(b, tuple)
+            s, _ = make_score(break_at=b[1] if unchecked_root else b)
+            label = b
+            if unchecked_root:
+                s.xsd_check = False
+                label = 'unchecked-root:%s' % b[1]
+            path = os.path.join(d, 'f_%s_%s.xml' % (str(label).replace(':', '_'), pname))
             if pname == 'same':
                 good, _ = make_score()
                 prior = (DECL + good.to_string()).encode('utf-8')
@@ -94,7 +100,7 @@ if mode == 'faults':
             except Exception as ex:
                 raised = type(ex).__name__
             after = open(path, 'rb').read() if os.path.exists(path) else None
-            out.append({'break_at': b, 'prior': pname, 'raised': raised, 'to_string_raises': exp_raise,
+            out.append({'break_at': label, 'prior': pname, 'raised': raised, 'to_string_raises': exp_raise,
                         'untouched': after == prior, 'exact': (after == expected) if expected is not None else None,
                         'after_len': None if after is None else len(after), 'prior_len': None if prior is None else len(prior)})
             if os.path.exists(path):
